@@ -79,6 +79,9 @@ struct ItemReq {
     keep_fields: Option<Vec<String>>,
     #[serde(default)]
     extra_fields: Vec<String>,
+    /// D3 for enums: keep only these variants
+    #[serde(default)]
+    keep_variants: Option<Vec<String>>,
     #[serde(default)]
     keep_derives: Option<Vec<String>>,
     #[serde(default)]
@@ -228,7 +231,7 @@ impl<'a> Rewriter<'a> {
                         out.push(na);
                     }
                 }
-                "repr" => out.push(a),
+                "repr" | "default" => out.push(a),
                 "doc" => {
                     // doc comments are dropped silently (counted once)
                     self.bump("D1.doc");
@@ -350,6 +353,20 @@ impl<'a> VisitMut for Rewriter<'a> {
                 self.filter_attrs(&mut e.attrs);
                 if !self.req.keep_vis {
                     e.vis = parse_quote!(pub);
+                }
+                if let Some(kv) = self.req.keep_variants.clone() {
+                    if top {
+                        let mut newv = punctuated::Punctuated::<Variant, token::Comma>::new();
+                        for v in std::mem::take(&mut e.variants).into_iter() {
+                            if kv.contains(&v.ident.to_string()) {
+                                newv.push(v);
+                            } else {
+                                self.dropped.push(format!("variant {}", v.ident));
+                                self.bump("D3");
+                            }
+                        }
+                        e.variants = newv;
+                    }
                 }
                 for v in e.variants.iter_mut() {
                     self.filter_attrs(&mut v.attrs);
